@@ -556,7 +556,12 @@ func (w *World) loadContracts(file, pkgPath string) error {
 			if len(fs) < 2 {
 				return fmt.Errorf("%s:%d: bad assert_at clause", file, lineNo)
 			}
-			pend = &pending{kind: "assert_at", label: label, extra: fs[0], text: fs[1], line: lineNo}
+			key := fs[0]
+			if i := strings.Index(key, "["); i >= 0 && strings.HasSuffix(key, "]") {
+				label = key[i+1 : len(key)-1]
+				key = key[:i]
+			}
+			pend = &pending{kind: "assert_at", label: label, extra: key, text: fs[1], line: lineNo}
 		case "inline":
 			cur.inline = true
 		case "allocates":
